@@ -72,6 +72,7 @@ FullSyncMove<SlotType, BUFFER_SIZE> {
     fn publish_movable(&self, item: SlotType) -> (Option<NonZeroU32>, Option<SlotType>) {
         match self.leak_slot_internal(|| false) {
             Some( (slot, _slot_id, len_before) ) => {
+                vp!("fs.p.write", _slot_id);
                 unsafe { ptr::write(slot, item); }
                 self.publish_leaked_internal();
                 (NonZeroU32::new(len_before+1), None)
@@ -91,6 +92,7 @@ FullSyncMove<SlotType, BUFFER_SIZE> {
 
         match self.leak_slot_internal(report_full_fn) {
             Some( (slot_ref, _slot_id, len_before) ) => {
+                vp!("fs.p.write", _slot_id);
                 setter_fn(slot_ref);
                 self.publish_leaked_internal();
                 report_len_after_enqueueing_fn(len_before+1);
@@ -102,6 +104,7 @@ FullSyncMove<SlotType, BUFFER_SIZE> {
 
     #[inline(always)]
     fn available_elements_count(&self) -> usize {
+        vp!("fs.len");
         let tail = unsafe { &* self.tail.get() };
         let head = unsafe { &* self.head.get() };
         tail.overflowing_sub(*head).0 as usize
@@ -135,6 +138,7 @@ FullSyncMove<SlotType, BUFFER_SIZE> {
     fn consume_movable(&self) -> Option<SlotType> {
         match self.consume_leaking_internal(|| false) {
             Some( (slot_ref, _len_before) ) => {
+                vp!("fs.c.read");
                 let item = unsafe { Some(ptr::read(slot_ref)) };
                 self.release_leaked_internal();
                 ogre_sync::unlock(&self.concurrency_guard);
@@ -191,7 +195,9 @@ FullSyncMove<SlotType, BUFFER_SIZE> {
         let mutable_buffer = unsafe { &mut * (self.buffer.get() as *mut Box<[SlotType; BUFFER_SIZE]>) };
         let mut len_before;
         loop {
+            vp!("fs.p.lock");
             ogre_sync::lock(&self.concurrency_guard);
+            vp!("fs.p.check");
             let tail = *unsafe { &* self.tail.get() };
             let head = *unsafe { &* self.head.get() };
             len_before = tail.overflowing_sub(head).0;
@@ -212,6 +218,7 @@ FullSyncMove<SlotType, BUFFER_SIZE> {
     /// -- assumes the lock is in the acquired state
     #[inline(always)]
     pub fn publish_leaked_internal(&self) {
+        vp!("fs.p.publish");
         let tail = unsafe { &mut * self.tail.get() };
         *tail = tail.overflowing_add(1).0;
         ogre_sync::unlock(&self.concurrency_guard);
@@ -221,6 +228,7 @@ FullSyncMove<SlotType, BUFFER_SIZE> {
     /// -- assumes the lock is in the acquired state, leaving it untouched
     #[inline(always)]
     pub fn unleak_internal(&self) {
+        vp!("fs.p.unleak");
         let tail = unsafe { &mut * self.tail.get() };
         *tail = tail.overflowing_sub(1).0;
         ogre_sync::unlock(&self.concurrency_guard);
@@ -237,6 +245,7 @@ FullSyncMove<SlotType, BUFFER_SIZE> {
         let mutable_buffer = unsafe { &mut * (self.buffer.get() as *mut Box<[SlotType; BUFFER_SIZE]>) };
         let mut len_before;
         loop {
+            vp!("fs.c.lock");
             ogre_sync::lock(&self.concurrency_guard);
             let head = *unsafe { &mut * self.head.get() };
             len_before = self.available_elements_count() as i32;
@@ -256,6 +265,7 @@ FullSyncMove<SlotType, BUFFER_SIZE> {
     /// -- assumes the lock is in the acquire state, leaving it untouched
     #[inline(always)]
     fn release_leaked_internal(&self) {
+        vp!("fs.c.release");
         let head = unsafe { &mut * self.head.get() };
         *head = head.overflowing_add(1).0;
     }
